@@ -140,7 +140,12 @@ def run(chk: core.Check, tier: str, seed: int) -> None:
     for env in (fresh, None):
         for q in common.ROOT_QUERIES:
             e = jp.DEFAULT_ENV if env is None else env
-            kept_q = e.compile(q)
+            try:
+                kept_q = e.compile(q)
+            except Exception as err:  # noqa: BLE001 - the battery's queries are valid: an environment that refuses one has a past that shows
+                chk.violation({"clause": "C15 a valid query is refused by one entry point (an environment with a history)", "cls": type(err).__name__},
+                              {"query": q, "environment": "module default" if env is None else "fresh at the start of this check", "error": str(err)[:200]})
+                continue
             d = {"want": 0, "ref": [1], "cfg": {"lim": 1}, "items": [{"v": 0, "s": "ab"}, {"v": 1, "s": "b"}, {"v": 2, "s": "abc"}, [0, 1]]}
             for k in range(5):
                 recs.append(record(jp, env, q, d, core.enc_value(d), kept=kept_q, kept_label="compiled query kept across in-place edits of the document"))
